@@ -30,7 +30,7 @@ def main():
     sid = os.path.basename(d)
     if not os.path.exists(WT):
         sh("git -C /repo worktree add --detach %s HEAD" % WT)
-    sh("git checkout -q --detach $(git -C /repo rev-parse HEAD) && git checkout -- . && git clean -fdq", cwd=WT)
+    sh("git checkout -q --detach %s && git checkout -- . && git clean -fdq" % os.environ.get("SEED_BASE", "$(git -C /repo rev-parse HEAD)"), cwd=WT)
     demos = [f for f in os.listdir(d) if f.endswith(".go")]
     for root, _, files in os.walk(d):
         for f in files:
